@@ -368,6 +368,16 @@ class Builder(object):
         if isinstance(fn, (ast.Name, ast.Attribute)):
             ctext = self.callee_text(fn)
         args = tuple(simp(self.t(a)) for a in node.args)
+        # f(*e) where e is an element of enumerate(...) is f(e[0], e[1]): such elements are pairs
+        if any(isinstance(a, tuple) and a[:1] == ('star',) and isinstance(a[1], tuple) and a[1][:1] == ('elem',) and isinstance(a[1][1], tuple)
+               and a[1][1][:1] == ('call',) and show(a[1][1][1]) == 'enumerate' for a in args):
+            ex = []
+            for a in args:
+                if isinstance(a, tuple) and a[:1] == ('star',) and isinstance(a[1], tuple) and a[1][:1] == ('elem',) and show(a[1][1][1]) == 'enumerate':
+                    ex.extend([('sub', a[1], num(0)), ('sub', a[1], num(1))])
+                else:
+                    ex.append(a)
+            args = tuple(ex)
         kws = tuple(sorted(((k.arg, simp(self.t(k.value))) for k in node.keywords), key=lambda kv: str(kv[0])))
         # a generator consumed whole by an exhaustive consumer is the list of its elements (same evaluations, same
         # order); any()/all() are NOT in the table: they stop early, so the number of evaluations differs
